@@ -106,7 +106,7 @@ def capform(draw, cx, v, sign, allow_forms=True):
     if r < 9:
         cut = draw(st.integers(1, max(1, cx.T - 1)))
         f = draw(st.sampled_from([0.5, 0.25, 1.0, 0.75]))
-        form = draw(st.sampled_from(["list", "list", "array"]))
+        form = draw(st.sampled_from(["list", "list", "array", "dtindex"]))
         return {"iv": [[-50, cut, v], [cut, cx.T + 50, v * f]], "form": form}
     fs = draw(st.lists(st.sampled_from([1.0, 0.5, 0.25, 0.75, 0.0]), min_size=cx.T, max_size=cx.T))
     return {"col": cx.new_col([v * f for f in fs])}
@@ -152,6 +152,8 @@ def a_contract(draw, cx, name, node=None):
     a = a_simple(draw, cx, name, node, allow_forms=False)
     a["type"] = "contract"
     a["min_take"], a["max_take"] = takes(draw, cx, a["min_cap"], a["max_cap"])
+    if a["min_take"] or a["max_take"]:
+        a["take_form"] = draw(st.sampled_from(["list", "list", "array", "dtindex"]))
     return a
 
 
